@@ -470,6 +470,31 @@ def behaviour(x):
     return out
 
 
+ROBUST_LINES = ["7;1;1;0;0;21.5\n", "7;255;3;0;0;55\n", "7;1;2;0;0;\n", "1;255;0;0;17;2.0\n", "1;1;0;0;6;\n",
+                "1;1;1;0;0;2\n", "1;1;2;0;0;\n", "255;255;3;0;3;\n", "1;255;3;0;22;5\n", "1;255;3;0;32;5\n",
+                "1;255;4;0;0;0100020050005000abcd\n", "9;255;4;0;2;010002000000\n", "1;255;3;0;6;0\n"]
+
+
+def robustness(x):
+    """None, or what went wrong when a gateway with this version value handles ordinary traffic."""
+    try:
+        gw = gw_module().SerialGateway("/dev/ttyFAKE7", protocol_version=x)
+    except Exception:  # noqa: BLE001  (construction is judged elsewhere)
+        return None
+    for line in ROBUST_LINES:
+        try:
+            gw.logic(line)
+        except Exception as exc:  # noqa: BLE001
+            return f"raised {type(exc).__name__} on {line.strip()!r} (table {const_name(gw.const)})"
+    try:
+        gw.set_child_value(1, 1, 0, "3")
+    except (ValueError, Exception) as exc:  # noqa: BLE001
+        import voluptuous as vol
+        if not isinstance(exc, (ValueError, vol.Invalid)):
+            return f"raised {type(exc).__name__} on set_child_value (table {const_name(gw.const)})"
+    return None
+
+
 def expected_behaviour(fl):
     ge = lambda v: CONSTS.index(fl) >= CONSTS.index(v)  # noqa: E731
     return {"gateway_validate": [ge(v) for _, v in PROBES], "logic_rgb": ge("1.5"), "logic_heartbeat": ge("2.0"),
@@ -554,6 +579,16 @@ def run_versions(res, driver, tier):
                                         "replay": {"op": "behaviour", "value": str(x), "is_str": isinstance(x, str)}})
         else:
             res.count("behaviour:" + floor_of(x))
+    # values the floor rule does not judge (pre-releases, keywords, …): whatever table they select, a gateway
+    # configured with them must handle traffic without raising (its table and its version tests have to agree)
+    for x in [v for v in strings + others if floor_of(v) is None and not (isinstance(v, str) and v in OVERLONG)]:
+        res.evaluations += 1
+        bad = robustness(x)
+        res.count("robustness:" + ("raised" if bad else "ok"))
+        if bad:
+            res.oracle_failures.append({"key": {"kind": "version-robustness", "what": bad.split(" on ")[0]},
+                                        "what": f"a gateway configured with protocol_version={value_key(x)} {bad}",
+                                        "replay": {"op": "robustness", "value": str(x), "is_str": isinstance(x, str)}})
     res.extra["version_grid"] = len(grid)
     res.extra["version_other_values"] = len(strings) + len(others)
     res.sample({"version": "2.0.5", "impl": real_select("2.0.5"), "floor": floor_of("2.0.5")})
@@ -722,6 +757,9 @@ def judge_replay(r, tmp, verbose=False):
             if got != expected_behaviour(want):
                 fails.append(f"version {value_key(x)}: accepts {got}, expected {expected_behaviour(want)}")
         return fails
+    if op == "robustness":
+        bad = robustness(corpus_value(r))
+        return [bad] if bad else []
     if op == "retain":
         bad = mqtt_retain_probe(r["class"], r["retain"])
         return [bad] if bad else []
